@@ -164,7 +164,8 @@ def run_async(sc, max_rounds=120):
         rec.rec('quiescent' if settled else 'restless', rounds, state['producers_done'])
 
     try:
-        lp.run_until_complete(main())
+        with simloop.guard_blocking():
+            lp.run_until_complete(main())
     except simloop.Deadlock:
         res.status = 'deadlock'
         rec.rec('deadlock')
